@@ -2,7 +2,7 @@
 import os
 import sys
 from pyvc.driver import main, native_bounded, VERIF
-from contracts import c13_recs
+from contracts import c13_recs, c13_levels
 
 
 def custom_native(ip, runner):
@@ -14,7 +14,7 @@ def custom_native(ip, runner):
 
 def build(chk, ip, runner):
     chk.design_ref = 'DESIGN.md section 5 C13'
-    chk.units = []
+    chk.units = c13_levels.units() + c13_levels.rec_units()
     chk.customs = [custom_native]
     chk.level = 'other'
     chk.explanation = 'bounded run-time contract check of the real recommendation pass against the ratings parsed from the same report'
